@@ -61,6 +61,30 @@ func (r *recorder) start()     { r.active.Store(true) }
 func (r *recorder) stop()      { r.active.Store(false) }
 func (r *recorder) beginExec() { r.mu.Lock(); r.inExec = true; r.mu.Unlock() }
 
+// restartExec forgets the Execute-phase events recorded so far (the first of two Execute calls on one
+// executor) and returns the packages the probe saw in them.
+func (r *recorder) restartExec() []string {
+	r.mu.Lock()
+	defer r.mu.Unlock()
+	var keep []proto.Event
+	var executed []string
+	for _, e := range r.events {
+		if e.Exec < 0 {
+			keep = append(keep, e)
+		} else if e.Kind == "new" && e.Gen == "probe" {
+			executed = append(executed, e.Pkg)
+		}
+	}
+	r.events = keep
+	r.execSeq = 0
+	for k := range r.counts {
+		if strings.HasPrefix(k, "x\x00") || !strings.HasPrefix(k, "os.") {
+			delete(r.counts, k)
+		}
+	}
+	return executed
+}
+
 func (r *recorder) nextSerial() int {
 	r.mu.Lock()
 	defer r.mu.Unlock()
